@@ -218,3 +218,115 @@ contract(f"{FN}::mean_absolute_scaled_error", "C06", cases=["noweight", "weight"
          ensures=[("forecast-error-over-in-sample-seasonal-naive-error", _scaled_post("mean_absolute_error"))])
 contract(f"{FN}::median_absolute_scaled_error", "C06", cases=["noweight"], inputs=_scaled_inputs,
          ensures=[("forecast-error-over-in-sample-seasonal-naive-error", _scaled_post("median_absolute_error"))])
+
+
+# ----------------------------------------------------------------------------- public metric functions: which cells reach which aggregate
+def _pf_inputs(extra=(), flags=()):
+    def inputs(B, case):
+        parts = case.split("|")
+        n = B.int("n", 1)
+        d = {"y_true": B.arr("y_true", n=n, dtype="real"), "y_pred": B.arr("y_pred", n=n, dtype="real"),
+             "horizon_weight": B.arr("horizon_weight", n=n, dtype="real") if "weight" in parts else None,
+             "multioutput": "uniform_average"}
+        for e in extra:
+            d[e] = B.arr(e, n=n, dtype="real")
+        if "symmetric" in flags:
+            d["symmetric"] = "sym" in parts
+        if "square_root" in flags:
+            d["square_root"] = "root" in parts
+        return d
+    return inputs
+
+
+def _pe_val(A, i):
+    t, p = R_(A.y_true.fn(i)), R_(A.y_pred.fn(i))
+    if A.symmetric:
+        return 2 * zabs(t - p) / zmax(zabs(t) + zabs(p), EPS)
+    return (t - p) / zmax(zabs(t), EPS)
+
+
+def _re_val(A, i):
+    t, p, b = R_(A.y_true.fn(i)), R_(A.y_pred.fn(i)), R_(A.y_pred_benchmark.fn(i))
+    den = If(t - b >= 0, zmax(t - b, EPS), zmin(t - b, -EPS))
+    return (t - p) / den
+
+
+def _err_val(A, i):
+    return R_(A.y_pred.fn(i)) - R_(A.y_true.fn(i))
+
+
+def _agg_post(cell, unweighted, weighted, wkey):
+    """ONE column aggregate over exactly the cells cell(i) (weights = horizon_weight when given), optional square root of it,
+    then the uniform average over the (single) output column"""
+    def post(A, r):
+        evs = [e for e in trace() if e.method.startswith("agg:") or e.method in ("mean", "median", "nanmean", "nanmedian")]
+        if len(evs) != 2:
+            return False
+        col, fin = evs
+        a = col.arg(0)
+        want = weighted if A.horizon_weight is not None else unweighted
+        name = col.method.split(":")[-1]
+        if name != want or not isinstance(a, SArr) or a.ndim != 2:
+            return False
+        i = _at_fresh(None, A.y_true.len)
+        conds = [Eq(a.shape[0], A.y_true.len), Eq(a.shape[1], 1), R_(a.fn(i, 0)) == cell(A, i)]
+        if A.horizon_weight is not None:
+            conds.append(col.kwargs.get(wkey) is A.horizon_weight)
+        elif wkey in col.kwargs:
+            conds.append(col.kwargs.get(wkey) is None)
+        out = col.result
+        fa = fin.arg(0)
+        if fin.method != "agg:average" or fin.kwargs.get("weights") is not None or not isinstance(fa, SArr) or fa.ndim != 1:
+            return False
+        from pyvc.libnp import _sqrt_fun
+        from pyvc import spec as _S
+        o0 = R_(out.fn(0))
+        if getattr(A, "square_root", False):
+            o0 = _sqrt_fun(_S.CUR.ctx)(o0)
+        conds += [Eq(fa.len, 1), R_(fa.fn(0)) == o0, r is fin.result]
+        return And(*conds)
+    return post
+
+
+_SYM = ["sym", "plain"]
+_W = ["noweight", "weight"]
+_cases = lambda *dims: ["|".join(c) for c in __import__("itertools").product(*dims)]
+
+contract(f"{FN}::mean_absolute_percentage_error", "C06", cases=_cases(_SYM, _W), inputs=_pf_inputs(flags=("symmetric",)),
+         ensures=[("weighted-mean-of-absolute-percentage-errors", _agg_post(lambda A, i: zabs(_pe_val(A, i)), "average", "average", "weights"), {"modular": False})])
+contract(f"{FN}::median_absolute_percentage_error", "C06", cases=_cases(_SYM, _W), inputs=_pf_inputs(flags=("symmetric",)),
+         ensures=[("(weighted)-median-of-absolute-percentage-errors", _agg_post(lambda A, i: zabs(_pe_val(A, i)), "median", "_weighted_percentile", "sample_weight"), {"modular": False})])
+contract(f"{FN}::mean_squared_percentage_error", "C06", cases=_cases(_SYM, _W, ["root", "noroot"]), inputs=_pf_inputs(flags=("symmetric", "square_root")),
+         ensures=[("weighted-mean-of-squared-percentage-errors-(root)", _agg_post(lambda A, i: _pe_val(A, i) * _pe_val(A, i), "average", "average", "weights"), {"modular": False})])
+contract(f"{FN}::median_squared_percentage_error", "C06", cases=_cases(_SYM, _W, ["root", "noroot"]), inputs=_pf_inputs(flags=("symmetric", "square_root")),
+         ensures=[("(weighted)-median-of-squared-percentage-errors-(root)", _agg_post(lambda A, i: _pe_val(A, i) * _pe_val(A, i), "median", "_weighted_percentile", "sample_weight"), {"modular": False})])
+contract(f"{FN}::median_squared_error", "C06", cases=_cases(_W, ["root", "noroot"]), inputs=_pf_inputs(flags=("square_root",)),
+         ensures=[("(weighted)-median-of-squared-errors-(root)", _agg_post(lambda A, i: _err_val(A, i) * _err_val(A, i), "median", "_weighted_percentile", "sample_weight"), {"modular": False})])
+contract(f"{FN}::mean_relative_absolute_error", "C06", cases=_cases(_W), inputs=_pf_inputs(extra=("y_pred_benchmark",)),
+         ensures=[("weighted-mean-of-absolute-relative-errors", _agg_post(lambda A, i: zabs(_re_val(A, i)), "mean", "average", "weights"), {"modular": False})])
+contract(f"{FN}::median_relative_absolute_error", "C06", cases=_cases(_W), inputs=_pf_inputs(extra=("y_pred_benchmark",)),
+         ensures=[("(weighted)-median-of-absolute-relative-errors", _agg_post(lambda A, i: zabs(_re_val(A, i)), "median", "_weighted_percentile", "sample_weight"), {"modular": False})])
+
+
+def _wgm_returns(A):
+    from pyvc.libnp import _record_agg, to_arr
+    from pyvc import spec as _S
+    return _record_agg(_S.CUR, "sktime._weighted_geometric_mean", to_arr(_S.CUR, A.x), {"sample_weight": A.sample_weight, "axis": A.axis})
+
+
+contract(f"{FN}::_weighted_geometric_mean", "C06", cases=["-"], assumed=True, inputs=lambda B, case: {}, returns=_wgm_returns,
+         notes=["ASSUMED: _weighted_geometric_mean(x, sample_weight=w, axis=0) = exp(sum(w * log x) / sum(w)) per column (transcendental "
+                "functions; compared with scipy by the bounded tier); recorded with its arguments"])
+
+
+def _floor_eps(v):
+    return If(v == 0, R_(EPS), v)
+
+
+contract(f"{FN}::geometric_mean_relative_absolute_error", "C06", cases=_cases(_W), inputs=_pf_inputs(extra=("y_pred_benchmark",)),
+         ensures=[("(weighted)-geometric-mean-of-absolute-relative-errors-zeros-replaced-by-EPS",
+                   _agg_post(lambda A, i: _floor_eps(zabs(_re_val(A, i))), "gmean", "_weighted_geometric_mean", "sample_weight"), {"modular": False})])
+contract(f"{FN}::geometric_mean_relative_squared_error", "C06", cases=_cases(_W, ["root", "noroot"]),
+         inputs=_pf_inputs(extra=("y_pred_benchmark",), flags=("square_root",)),
+         ensures=[("(weighted)-geometric-mean-of-squared-relative-errors-zeros-replaced-by-EPS-(root)",
+                   _agg_post(lambda A, i: _floor_eps(_re_val(A, i) * _re_val(A, i)), "gmean", "_weighted_geometric_mean", "sample_weight"), {"modular": False})])
